@@ -2,7 +2,7 @@
 (* Idiom G: the boundary product of C10 (and the operand values used for     *)
 (* C08 / C07 instances) is enumerated from RV32.FieldRange by TLC and        *)
 (* written as JSON; the Python harness replays it into ppci.                 *)
-EXTENDS RV32, Json, IOUtils, TLC
+EXTENDS RV32, Json, IOUtils, TLC, SequencesExt
 \* immediate / displacement operand of a printed (surface) mnemonic
 SurfaceRange(m0) == LET m == Spelling(m0) IN
     IF m \in {"bgt", "ble", "bgtu", "bleu"} THEN FieldRange("beq")
@@ -17,15 +17,11 @@ Labelled(fr) == LET lo == FMin(fr)  hi == FMax(fr)  a == fr.align  top == P2(fr.
        <<"half-a", half - a>>, <<"half", half>>, <<"half+a", half + a>>,
        <<"top-a", top - a>>, <<"top-1", top - 1>>, <<"top", top>>, <<"top+a", top + a>>,
        <<"2top-a", 2 * top - a>>, <<"-top", -top>> >>
-Row(m) == LET fr == SurfaceRange(m) IN
+Row(m) == LET fr == SurfaceRange(m)  lab == Labelled(fr) IN
     [mn |-> m, kind |-> fr.kind, bits |-> fr.bits, align |-> fr.align,
      vals |-> IF fr.kind = "n" THEN << >>
-              ELSE [k \in 1..Len(Labelled(fr)) |->
-                       [label |-> Labelled(fr)[k][1], v |-> Labelled(fr)[k][2],
-                        inside |-> Representable(fr, Labelled(fr)[k][2])]]]
+              ELSE [k \in 1..Len(lab) |->
+                       [label |-> lab[k][1], v |-> lab[k][2], inside |-> Representable(fr, lab[k][2])]]]
 Table == {Row(m) : m \in Surface}
-ASSUME JsonSerialize(IOEnv.OUT_FILE, SetToSeq(Table))
-VARIABLE x
-Init == x = 0
-Next == UNCHANGED x
+WriteTable == JsonSerialize(IOEnv.OUT_FILE, SetToSeq(Table))
 =============================================================================
